@@ -96,10 +96,34 @@ func (br *xmpReader) readAttribute(tag *Tag) (attr Attribute, err error) {
 	attr.pt = attrPType
 	attr.parent = tag.self
 
-	// Attribute Name
-	if buf, err = br.Peek(maxTagHeaderSize); err != nil {
-		err = errors.Wrap(err, "Attr")
-		return
+	// Attribute Name. White space of any length may precede it, or the end
+	// of the tag when the last attribute was followed by white space.
+	for {
+		if buf, err = br.Peek(maxTagHeaderSize); err != nil {
+			err = errors.Wrap(err, "Attr")
+			return
+		}
+		n := 0
+		for n < len(buf) && isSpace(buf[n]) {
+			n++
+		}
+		if n > 0 {
+			if _, err = br.Discard(n); err != nil {
+				err = errors.Wrap(err, "Attr (discard)")
+				return
+			}
+			continue
+		}
+		if buf[n] == '>' || (buf[n] == '/' && n+1 < len(buf) && buf[n+1] == '>') {
+			if buf[n] == '/' {
+				tag.t = soloTag
+				n++
+			}
+			br.a = false
+			_, err = br.Discard(n + 1)
+			return
+		}
+		break
 	}
 
 	var d int
@@ -175,6 +199,21 @@ func (br *xmpReader) readTagHeader(parent Tag) (tag Tag, err error) {
 		if buf, err = br.Peek(s); err != nil {
 			err = errors.Wrap(err, "Tag Header")
 			return
+		}
+		// Drop white space in front of the tag so that the tag header starts
+		// at the beginning of the window however long the padding is.
+		if i == 0 && s == maxTagHeaderSize {
+			n := 0
+			for n < len(buf) && isSpace(buf[n]) {
+				n++
+			}
+			if n > 0 && (n < len(buf) || len(buf) >= s) {
+				if _, err = br.Discard(n); err != nil {
+					err = errors.Wrap(err, "Tag Header (discard)")
+					return
+				}
+				continue
+			}
 		}
 
 		// Find Start of Tag
